@@ -500,8 +500,20 @@ namespace Clipper2Lib {
         path[highI];
 
       crossing_loc = loc;
-      if (!GetIntersection(rect_as_path_,
-        path[i], prev_pt, crossing_loc, ip))
+      bool crossing = GetIntersection(rect_as_path_,
+        path[i], prev_pt, crossing_loc, ip);
+      // when passing right through rect we also need the first
+      // intersect pt (ip2), found by searching from the other end
+      Location loc2 = prev;
+      if (crossing && loc != Location::Inside && prev != Location::Inside &&
+        !GetIntersection(rect_as_path_, prev_pt, path[i], loc2, ip2))
+      {
+        // only one direction sees an intersection: the edge touches
+        // rect so lightly that it isn't crossing it
+        crossing = false;
+        crossing_loc = loc;
+      }
+      if (!crossing)
       {
         // ie remaining outside
         if (crossing_prev == Location::Inside)
@@ -546,9 +558,8 @@ namespace Clipper2Lib {
       else if (prev != Location::Inside)
       {
         // passing right through rect. 'ip' here will be the second
-        // intersect pt but we'll also need the first intersect pt (ip2)
-        loc = prev;
-        GetIntersection(rect_as_path_, prev_pt, path[i], loc, ip2);
+        // intersect pt and ip2 (found above) the first
+        loc = loc2;
         if (crossing_prev != Location::Inside && crossing_prev != loc) //579
           AddCorner(crossing_prev, loc);
 
